@@ -27,6 +27,7 @@ type RunConfig struct {
 	ReplayDir  string
 	KnownFile  string
 	NoNative   bool
+	Params     map[string]int
 }
 
 type KnownFinding struct {
@@ -200,8 +201,8 @@ func runCheck(cfg *RunConfig) int {
 			return 2
 		}
 		h := &HarnessRun{prog: prog, name: hn, property: cfg.Property, fn: fn, tier: cfg.Tier,
-			feasTimeoutMs: 5000, assertTimeoutMs: 20000, maxSteps: 3000000, maxPaths: cfg.MaxPaths,
-			fixedPicks: map[string]int{}, knownActive: knownActive, params: map[string]int{},
+			feasTimeoutMs: 3000, assertTimeoutMs: 10000, maxSteps: 3000000, maxPaths: cfg.MaxPaths,
+			fixedPicks: map[string]int{}, knownActive: knownActive, params: cfg.Params,
 			aborted: map[string]int{}, abortMsgs: map[string]int{}, labels: map[string]*labelStat{},
 			covers: map[string]*Scenario{}, coverHits: map[string]int{}, knownHits: map[string]*Scenario{},
 			entered: map[string]int{}, intrinsics: map[string]int{}, mapRanges: map[string]int{}, shapes: map[string]int{}}
@@ -226,8 +227,8 @@ func runCheck(cfg *RunConfig) int {
 			vio += ls.violated
 			inc += ls.inconclusive
 		}
-		fmt.Printf("harness %s: paths=%d completed=%d infeasible=%d panicked=%d branches=%d obligations=%d discharged=%d violated=%d inconclusive=%d feas-unknown=%d covers=%d wall=%.1fs\n",
-			hn, h.paths, h.completed, h.infeasible, h.panicked, h.branchTotal, obl, dis, vio, inc, h.feasUnknown, len(h.covers), wall)
+		fmt.Printf("harness %s: paths=%d completed=%d infeasible=%d panicked=%d branches=%d obligations=%d discharged=%d violated=%d inconclusive=%d feas-unknown=%d model-hits=%d covers=%d wall=%.1fs\n",
+			hn, h.paths, h.completed, h.infeasible, h.panicked, h.branchTotal, obl, dis, vio, inc, h.feasUnknown, h.modelHits, len(h.covers), wall)
 		for k, n := range h.aborted {
 			fmt.Printf("  ABORTED kind=%s paths=%d\n", k, n)
 			if k == "unsupported" || k == "error" || k == "unwind" {
